@@ -653,6 +653,18 @@ func runC15Wiring(c *Ctx, names map[int64]string) {
 		c.Undecided("authentication interceptors", "-", fmt.Sprintf("%d found (expected 3)", nAuth))
 	}
 
+	// ---------- R6 compression on the hop (shared with C16)
+	{
+		sub := NewCtx(p, "C16", c.Tier, c.Config)
+		runC16(sub)
+		c.Rule("R6", "TAB+PROV", "compression on the hop (same rules as C16.R1/R4/R5): every accepted compression type is encoded and decoded by the same codec, Content-Encoding is set iff the client compressed, and the compressed body buffer is request-local", 8)
+		for _, o := range sub.Obs {
+			if (o.Rule == "C16.R1" || o.Rule == "C16.R4" || o.Rule == "C16.R5") && !strings.HasPrefix(o.Construct, "floor:") {
+				c.add(o.Verdict, o.Construct, o.Pos, o.Detail)
+			}
+		}
+	}
+
 	// ---------- R5 SD
 	c.Rule("R5", "SD", "signal-family consistency across the per-signal siblings of the OTLP receiver and exporters", 20)
 	sd := newSD(p)
